@@ -1049,6 +1049,51 @@ def _roundtrip_checks(e, fails, site_prefix=""):
         return
     if canon_doc(json.loads(s2)) != canon_doc(json.loads(s)):
         fails.append(Failure(site_prefix + "Extension.to_json", "reserialises-differently", ""))
+        return
+    # loading is a function of the document: a look-alike document of ANOTHER extension (same definitions, the
+    # operation signatures not naming their own extension, as in the specification's files) loaded right after
+    # gives that other extension, requirements included
+    try:
+        base = json.loads(s)
+        me, other = base["name"], base["name"] + ".twin"
+
+        def spec_style(doc, new_name):
+            d = copy.deepcopy(doc)
+
+            def rename(x):
+                if isinstance(x, dict):
+                    return {k: (new_name if k == "extension" and v == me else rename(v)) for k, v in x.items()}
+                if isinstance(x, list):
+                    return [rename(v) for v in x]
+                return x
+
+            d = rename(d)
+            d["name"] = new_name
+            for od in d.get("operations", {}).values():
+                sig = od.get("signature")
+                if isinstance(sig, dict) and isinstance(sig.get("body"), dict):
+                    sig["body"]["runtime_reqs"] = [r for r in sig["body"].get("runtime_reqs", []) if r != me]
+            return d
+
+        def own_added(doc, name):
+            d = copy.deepcopy(doc)
+            for od in d.get("operations", {}).values():
+                sig = od.get("signature")
+                if isinstance(sig, dict) and isinstance(sig.get("body"), dict):
+                    sig["body"]["runtime_reqs"] = sorted(set(sig["body"].get("runtime_reqs", [])) | {name})
+            return d
+
+        d_me, d_other = spec_style(base, me), spec_style(base, other)
+        got_me = json.loads(ext.Extension.from_json(json.dumps(d_me)).to_json())
+        got_other = json.loads(ext.Extension.from_json(json.dumps(d_other)).to_json())
+    except Exception as ex:  # noqa: BLE001
+        fails.append(Failure(site_prefix + "Extension.from_json", "raises-on-a-look-alike-document", repr(ex)[:200]))
+        return
+    if canon_doc(got_me) != canon_doc(own_added(d_me, me)):
+        fails.append(Failure(site_prefix + "Extension.from_json", "spec-style-document-loads-differently", ""))
+    elif canon_doc(got_other) != canon_doc(own_added(d_other, other)):
+        fails.append(Failure(site_prefix + "Extension.from_json", "result-depends-on-documents-loaded-before",
+                             "the same definitions under another extension name, loaded right after"))
 
 
 def _oracle_file(name):
